@@ -72,9 +72,13 @@ CLAIMS = {
         note='Corpus fixed; history length <= 3.', ref='4 C19'),
 }
 
+CLAIMS['C20'] = dict(
+    text='The functions on the lazily-registered-printer path (is_registered and its helper, the registering decorator, pretty_python_value) are taken from the current source, mechanically turned into coroutines that yield before every statement and run as threads on the real shared module state; the context-switch points are solver variables, so every statement-granularity interleaving with up to four context switches (two threads) / three segments (three threads) is explored and each thread\'s text is compared with the sequential result. module-level locks are modelled cooperatively.',
+    note='A violation is a real schedule; absence of violations is claimed only for statement-granularity interleavings of these functions (switches inside a statement, inside functools.singledispatch, the printers, layout and renderer are outside the model). Switch points are enumerated by the solver (each path is one schedule).',
+    ref='9.10')
+
 NA = {
     'C12': 'growth law over input size: no configuration/data variable for a solver to range over, and the sizes that separate n^2 from 2^n are far beyond symbolic execution of Python (DESIGN.md 5)',
-    'C20': 'thread interleavings: CrossHair executes a single thread and z3 sees no CPython thread switch; a hand-made scheduler model would decide by enumeration of my model, not of the real interpreter (DESIGN.md 5)',
 }
 
 
